@@ -193,15 +193,13 @@ x.values_mut().for_each(|v| *v /= norm);
 //@ with
 vmap_div_all(&mut x, norm);
         let y: f64 = vsum_abs_diff(&x, &xlast);
-        proof { assert(norm == norm_of(ssq)); }
-//@ rewrite
-return Ok(x);
-//@ with
-proof {
+        proof {
+            assert(norm == norm_of(ssq));
+            if flt(y, fmul(usize_to_f64(nnodes), _tolerance)) {
                 assert(converged_iterate(*graph, tol_of(tolerance), x@, xlast@, acc, ssq, y));
                 assert(is_converged_iterate(*graph, tol_of(tolerance), x@));
             }
-            return Ok(x);
+        }
 //@ spec
     requires
         graph.wf_nodes(), graph.wf_estore(), graph.wf_rows(),
